@@ -4,7 +4,7 @@
 from nodesim import own_addr
 import random
 from nodegen import *
-from nodesim import parse_case, parse_result
+from nodesim import parse_case, parse_result, REF_FAST
 
 
 FAST_HERE = [129029, 127489, 130816, 126996, 131071, 130817]     # fast packets by the default / proprietary classification
@@ -75,6 +75,28 @@ def gen_node(seed, tier):
                 ops.append('P')
         ops += ['P'] * (3 + nmsg // 8)
         cases.append(line + ' | ' + ' ; '.join(ops))
+    # every PGN of the default fast-packet classification once as a three-frame packet: one complete delivery each (seed C14-21)
+    fast = sorted(p for p in REF_FAST if p not in (126208, 126464, 126996, 126998, 126720, 65240))
+    for c0 in range(0, len(fast), 12):
+        ops = []
+        for j, pgn in enumerate(fast[c0:c0 + 12]):
+            ops += sender_stream(r, pgn, 60 + j, 255, bytes(r.randrange(256) for _ in range(20)), prio=r.choice([2, 3, 6]), sid=r.randrange(8))
+            if j % 4 == 3:
+                ops.append('P')
+        cases.append('NODE mode=%d ndev=1 src=30 q=40 slots=8 t0=5000 | ' % r.choice([2, 0, 4]) + ' ; '.join(ops + ['P', 'P']))
+    return cases + cold_open_cases(r, thorough)
+
+
+def cold_open_cases(r, thorough):
+    cases = []
+    for _ in range(6 if not thorough else 80):
+        mode = r.choice([2, 2, 1, 0, 4])
+        line = 'NODE mode=%d ndev=1 src=30 q=40 slots=5 t0=%d cold=1' % (mode, r.choice([5000, 4294967000]))
+        fr = lambda s: rx(can_id(r.choice([2, 3, 6]), r.choice([127250, 129025, 130306]), s, 255), [r.randrange(256) for _ in range(8)])
+        ops = ['P', 'T 1', 'P', 'T %d' % r.choice([10, 100]), fr(60), 'P', 'T %d' % r.choice([250, 300, 1000])]
+        ops += [fr(61 + j) for j in range(r.choice([1, 2, 5]))] + ['P']                     # waiting at the call that completes Open()
+        ops += ['T 5', fr(70), 'P', 'T 300', fr(71), 'P']
+        cases.append(line + ' | ' + ' ; '.join(ops))
     return cases
 
 
@@ -111,7 +133,7 @@ def complete_messages(ops):
                     exp.append((s[0], src, dst, tuple(s[2][:s[1]])))
                     del tp[(src, dst)]
             continue
-        if pgn in FAST_HERE + [126720]:
+        if pgn in FAST_HERE or pgn == 126720 or pgn in REF_FAST:
             if buf[0] & 31 == 0:
                 fp[(pgn, src, dst)] = [buf[1], buf[2:8], dst, buf[0]]
             elif (pgn, src, dst) in fp:
@@ -141,7 +163,17 @@ def oracle_node(case, res):
                 if e[2] in (60416, 60160):
                     return 'tp-frame-delivered:a transport-protocol control/data frame (PGN %d) was handed to the application' % e[2]
                 got.append((e[2], e[3], e[4], tuple(e[6])))
-    exp = complete_messages(ops)
+    if cfg.get('cold'):
+        # a cold node: frames taken out of the driver before Open() has completed are discarded on purpose; the frames waiting at the call
+        # that completes Open() are read by that same call and are ordinary messages (seed C14-19)
+        k_open = next((k for k, evs in enumerate(per_op) if any(e[0] == 'note' and e[1:2] == ('open',) for e in evs)), None)
+        if k_open is None:
+            exp = []
+        else:
+            prev = max([k for k in range(k_open) if ops[k] and ops[k][0] in ('P', 'S', 'Q')] + [-1])
+            exp = complete_messages(ops[prev + 1:])
+    else:
+        exp = complete_messages(ops)
     from collections import Counter
     cg, ce = Counter(got), Counter(exp)
     for m, n in ce.items():
